@@ -40,7 +40,7 @@ def shards(tier, seed):
 
 
 def min_required(tier):
-    return {"crash_points_hit": 400, "cases": len(F.CASES), "distinct_interrupted_pid_states": 4}
+    return {"crash_points_hit": 200, "cases": len(F.CASES), "distinct_interrupted_pid_states": 3}
 
 
 def run_shard(case_idxs, tier, sub_seed):
